@@ -4,6 +4,12 @@ import json, sys
 pid, n = sys.argv[1], sys.argv[2]
 p = next(json.loads(l) for l in open('/verif/properties.jsonl') if json.loads(l)['id'] == pid)
 ws = f'/tmp/s/{pid}_{n}'
+ideas = json.load(open('/verif/tools/seed_ideas.json'))
+prev = [v[0] for k, v in sorted(ideas.items()) if k.startswith(pid + '_')]
+AVOID = ''
+if prev:
+    AVOID = ('\nEarlier reviewers already proposed the following changes for this property; propose something DIFFERENT in kind (another '
+             'function, another mechanism, another clause of the property):\n' + ''.join(f' - {x}\n' for x in prev))
 print(f"""You are helping to evaluate how well a verification effort protects the Python project MIT-LAE/AEIC (aviation emissions
 inventory code) against regressions. You get ONE semantic property that the code is supposed to satisfy, and a scratch git
 worktree of the repository. Your job: write a realistic change to the library source that BREAKS this property while the
@@ -20,6 +26,7 @@ other directory under /tmp/s or /tmp/b; do not read anything under /verif). Pyth
 (about one minute for the whole suite; the sandbox has no network). IMPORTANT: always set PYTHONPATH={ws}/repo/src (also for your
 demonstration), otherwise the installed copy of the library is imported instead of your worktree.
 
+{AVOID}
 What makes a good change:
  * It is the kind of mistake a maintainer could plausibly make (a refactor gone slightly wrong, an optimisation, a changed
    boundary, a reordered step, a forgotten reset, swapped arguments, a cache that is not invalidated, an error path that
